@@ -75,6 +75,15 @@ def can_calls(ctx, f):
     return C.calls_to(ctx, f, 'placement.context:RequestContext.can')
 
 
+def chain_can_calls(ctx, f):
+    """(function, can() call) pairs over a handler and its delegate."""
+    impl, _c = C.impl_of(ctx, f)
+    out = [(f, c) for c in can_calls(ctx, f)]
+    if impl is not f:
+        out += [(impl, c) for c in can_calls(ctx, impl)]
+    return out
+
+
 def _is_pure_accessor(ctx, f, call):
     names = C.call_name(ctx, f, call)
     if 'placement.util:wsgi_path_item' in names:
@@ -134,14 +143,14 @@ def run(ctx, R):
         rule_name = got[0][0] if got else None
         for f in fs:
             impl, _ = C.impl_of(ctx, f)
-            calls = can_calls(ctx, impl)
+            chain = chain_can_calls(ctx, f)
             hc = 'handler:%s' % f.qname
-            if not R.ob('R16.1', hc, len(calls) == 1,
+            if not R.ob('R16.1', hc, len(chain) == 1,
                         'exactly one context.can() in the handler',
-                        '%d can() calls in %s' % (len(calls), impl.qname),
+                        '%d can() calls in %s' % (len(chain), impl.qname),
                         func=impl):
                 continue
-            call = calls[0]
+            impl, call = chain[0]
             arg = call.args[0] if call.args else C.kwarg(call, 'action')
             val = C.const_str(ctx, impl, arg)
             R.ob('R16.1', hc + ':rule', val is not None and val == rule_name,
@@ -203,9 +212,13 @@ def run(ctx, R):
              'only decorators answering 404/405/406/415 may precede the '
              'handler body', 'unexpected decorators %s' % bad, func=f)
         impl, dcall = C.impl_of(ctx, f)
-        calls = can_calls(ctx, impl)
-        if len(calls) != 1:
+        chain = chain_can_calls(ctx, f)
+        if len(chain) != 1:
             continue
+        # the function of the chain that authorises (a wrapper whose only
+        # other statement is the delegation, or the implementation)
+        impl, call0 = chain[0]
+        calls = [call0]
         S = C.stmt_of(calls[0])
         g = cfgmod.cfg_of(impl)
         before = g.reachable_from([cfgmod.ENTRY], removed={S})
@@ -271,10 +284,11 @@ def run(ctx, R):
         if (meth, path) != ('GET', '/usages'):
             continue
         for f in fs:
-            impl, _ = C.impl_of(ctx, f)
-            calls = can_calls(ctx, impl)
-            if len(calls) != 1:
+            chain = chain_can_calls(ctx, f)
+            if len(chain) != 1:
                 continue
+            impl, call0 = chain[0]
+            calls = [call0]
             tgt = C.kwarg(calls[0], 'target')
             ok = False
             found = src(tgt) if tgt is not None else 'no target'
